@@ -66,6 +66,20 @@ def err_form(t, exact, memo):
     return r
 
 
+def simp0(t):
+    """x - 0, x + 0, 0 + x -> x (after the compensations have been replaced by their real value 0)"""
+    if t[0] == 'op' and t[1] in ('add', 'sub') and len(t[2]) == 2:
+        a, b = simp0(t[2][0]), simp0(t[2][1])
+        if b == ZERO:
+            return a
+        if a == ZERO and t[1] == 'add':
+            return b
+        return ('op', t[1], (a, b))
+    if t[0] == 'op' and t[1] == 'neg':
+        return ('op', 'neg', (simp0(t[2][0]),))
+    return t
+
+
 def op_nodes(t):
     out = set()
     T.walk(t, lambda x: out.add(x) if (x[0] == 'op' and x[1] in ('add', 'sub')) else None)
@@ -171,76 +185,106 @@ def run_cfg(chk, facts, cfg):
                 out.append(T.subst(pt, {S: s0, C: c0[0], X: x}))
         return out
 
-    # ---- D3 merge
+    # ---- D3 merge (decided on the merge's own summary, by the same first-order error algebra as the kernel)
     add_s = facts.trait_method('core::ops::AddAssign', kp, 'add_assign', trait_args=lambda imp: [t.get('adt') for t in imp.get('trait_args', [])] == [kp])
-    if chk.anchor('AddAssign<Self> for KahanSum' + sfx, add_s) and post_t is not None:
+    sigma = SIGMA.get('kernel')
+    if chk.anchor('AddAssign<Self> for KahanSum' + sfx, add_s) and post_t is not None and sigma is not None:
         cnt['impls'] += 1
         where = facts.loc(add_s['id'])
         BS, BC = T.sym('bs'), T.sym('bc')
+        sg = lambda a, b: T.op('add' if sigma > 0 else 'sub', a, b)
+        zero_c = {C: ZERO, BC: ZERO}
+
+        def comp_sized(t):
+            """the value of t is a pure rounding residue: it vanishes over the reals when the compensations do"""
+            try:
+                return nf.is_zero(nf.of_term(T.subst(t, zero_c)))
+            except NotReal:
+                return False
+
+        def recoveries(terms):
+            """[(t, p, q, exact nodes)]: sub-terms that recover the rounding error of a float addition t = p + q (or
+            subtraction t = p - q) in a Fast2Sum form - (t - p) - q, (p - t) + q, resp. (t - p) + q - which is exact,
+            every intermediate included, only for |p| >= |q| (Dekker)"""
+            out = []
+
+            def visit(x):
+                if x[0] != 'op' or len(x[2]) != 2:
+                    return
+                a, b = x[2]
+                if a[0] == 'op' and a[1] == 'sub' and len(a[2]) == 2:
+                    u, v = a[2]
+                    # (t - p) -/+ q
+                    if u[0] == 'op' and len(u[2]) == 2:
+                        if x[1] == 'sub' and u[1] == 'add' and (u[2] == (v, b) or u[2] == (b, v)):
+                            out.append((u, v, b, (a, x)))
+                        if x[1] == 'add' and u[1] == 'sub' and u[2] == (v, b):
+                            out.append((u, v, b, (a, x)))
+                    # (p - t) + q
+                    if x[1] == 'add' and v[0] == 'op' and v[1] == 'add' and len(v[2]) == 2 and (v[2] == (u, b) or v[2] == (b, u)):
+                        out.append((v, u, b, (a, x)))
+            for t_ in terms:
+                T.walk(t_, visit)
+            return out
         try:
             ps = summ(add_s, ['self', 'rhs'], [by_ref(sm.kahan_value(S, [C])), sm.kahan_value(BS, [BC])])
             chk.saw(facts, add_s, paths=len(ps))
-            st0 = [sm.kahan_value(S, [C])]
-            st1 = [sm.kahan_value(BS, [BC])]
-            # either register may be the base the other one is fed into (sum first, then its compensation, if used)
-            cands = {}
-            for bname, base, oname, osum, ocomp in (('self', st0, 'rhs', BS, BC), ('rhs', st1, 'self', S, C)):
-                cands[(bname, 'K(K(%s, %s.sum), %s.comp)' % (bname, oname, oname))] = K(K(base, osum), ocomp)
-                cands[(bname, 'K(K(%s, %s.sum), -%s.comp)' % (bname, oname, oname))] = K(K(base, osum), T.op('neg', ocomp))
-                cands[(bname, 'K(%s, %s.sum)' % (bname, oname))] = K(base, osum)
             rets = [q for q in ps if q.is_ret()]
-            posts = [q.effects['self'] for q in rets]
-            post = posts[0] if posts else None
-            per_path = []
+            cons, first, recov = [], [], []
+            if not rets or len(rets) != len(ps):
+                cons.append('the merge has %d paths, %d returning' % (len(ps), len(rets)))
+            want = T.op('add', sg(S, C), sg(BS, BC))
             for q in rets:
-                per_path.append([k for k, v in cands.items() if q.effects['self'] in v])
-            hit = bool(posts) and len(posts) == len(ps) and all(per_path)
-            shown = sorted(set(h[0][1] for h in per_path if h))
-            chk.ob('%s:merge%s' % (PID, sfx), 'E3 composition', 'register += register feeds the other register\'s sum (and its compensation, if used) through the same kernel, keeping the base register\'s compensation live',
-                   hit, ('matches ' + ', '.join(shown)) if hit else 'merge is %s' % (T.show(post)[:200] if post else 'not straight-line'), where, sample={'merge': shown})
-            cnt['kernel'] += 2 if hit and all('comp)' in h[0][1] for h in per_path) else (1 if hit else 0)
-            sigma = SIGMA.get('kernel')
-            if hit and sigma is not None:
-                # (a) a register stands for s + sigma*c (the quantity the kernel conserves): the merged register must stand
-                #     for the sum of the two, as an identity over the reals in s, c, bs, bc (c is NOT assumed to be 0 here:
-                #     it is the live residue of the operand)
-                bad = []
-                sg = lambda a, b: T.op('add' if sigma > 0 else 'sub', a, b)
-                want = T.op('add', sg(S, C), sg(BS, BC))
-                for q in rets:
-                    s2, c2 = fields(q.effects['self'])
-                    if not nf.term_equal(sg(s2, c2[0]), want):
-                        rest = 'a non-zero rest'
-                        for nm, t_ in (('rhs.compensation', BC), ('self.compensation', C)):
-                            for k_ in (2, -2, 1, -1):
-                                if nf.term_equal(sg(s2, c2[0]), T.op('add', want, T.op('mul', T.mk_flt(Fraction(k_)), t_))):
+                s2, c2l = fields(q.effects['self'])
+                c2 = c2l[0]
+                # (a) conservation over the reals, compensations live
+                if not nf.term_equal(sg(s2, c2), want):
+                    rest = 'a non-zero rest'
+                    for nm, t_ in (('rhs.compensation', BC), ('self.compensation', C), ('rhs.sum', BS), ('self.sum', S)):
+                        for k_ in (2, -2, 1, -1):
+                            try:
+                                if nf.term_equal(sg(s2, c2), T.op('add', want, T.op('mul', T.mk_flt(Fraction(k_)), t_))):
                                     rest = '%+d * %s' % (k_, nm)
-                        bad.append('the merged register stands for (self) + (rhs) + %s: the operand\'s residue enters with the wrong sign' % rest)
-                chk.ob('%s:merge:conserved%s' % (PID, sfx), 'E8 error-algebra', 'the merge conserves s %s c: the merged register stands for the sum of what the two operands stand for (the operand\'s residue enters with the sign of the conserved quantity)' % ('+' if sigma > 0 else '-'),
-                       not bad, '; '.join(sorted(set(bad))[:2]), where)
-                # (b) in a merge the addend is a partial sum: the rounding error of adding it must be recovered *exactly*,
-                #     else every merge loses up to u*|partial sum| and a chain of merges accumulates like naive summation.
-                #     The kernel's residual (t - p) - q is exact only for |p| >= |q| (Dekker): the path condition has to
-                #     establish that the base register's sum is the larger one.
-                probs = []
-                for q, hits in zip(rets, per_path):
-                    bname = hits[0][0]
-                    base_s, other_s = (S, BS) if bname == 'self' else (BS, S)
-                    first = K([sm.kahan_value(base_s, [C if bname == 'self' else BC])], other_s)
-                    f2s = [fast2sum_operands(*[fields(x)[0], fields(x)[1][0]]) for x in first]
-                    if any(o is None for o in f2s):
-                        probs.append('undecided: the kernel residual is not in Fast2Sum form (t - p) - q')
+                            except NotReal:
+                                pass
+                    cons.append('the merged register stands for (self) + (rhs) + %s' % rest)
+                    continue
+                # (c) first order: no rounding error proportional to a partial sum survives in the conserved quantity
+                s_nodes = op_nodes(s2)
+                recs = recoveries([s2, c2])
+                # exact by assumption: operations that only feed the compensation (as in the kernel rule) and the
+                # intermediates of the recognised recoveries - (b) below demands their precondition
+                only_c = (op_nodes(c2) - s_nodes) | set(n_ for r_ in recs for n_ in r_[3])
+                memo = {}
+                fq = err_form(s2, only_c, memo).combine(err_form(c2, only_c, memo), sigma)
+                left = [t_ for t_, k_ in fq.eps.items() if k_ != 0 and not comp_sized(t_)]
+                if left:
+                    first.append('the rounding error of %s (a quantity of the size of a partial sum) remains in the merged register: each merge loses up to u*|partial sum|' % T.show(left[0])[:70])
+                # (b) the recoveries that (c) took as exact need |p| >= |q|: by the path condition, or trivially (q is a residue)
+                if not recs and s_nodes:
+                    recov.append('undecided: the rounding error of the new sum is not recovered in a recognised (Fast2Sum) form')
+                for t_, p_, q_, _x in recs:
+                    if comp_sized(q_) and not comp_sized(p_):
                         continue
-                    ab, ao = T.op('abs', base_s), T.op('abs', other_s)
-                    ok_lits = {(T.op('lt', ao, ab), True), (T.op('le', ao, ab), True), (T.op('lt', ab, ao), False), (T.op('le', ab, ao), False)}
-                    if not any((a_, pol) in ok_lits for a_, pol in q.guard):
-                        probs.append('on the path where %s is the base, nothing establishes |%s.sum| >= |%s.sum|: the recovery (t - p) - q of the kernel is exact only for |p| >= |q|, so a merge into a smaller register loses its rounding error (u*|partial sum| per merge)' % (
-                            bname, bname, 'rhs' if bname == 'self' else 'self'))
-                und = [x for x in probs if x.startswith('undecided')]
-                chk.ob('%s:merge:recovery%s' % (PID, sfx), 'E8 error-algebra', 'the merge adds the smaller register into the larger one (precondition of the exact error recovery of the kernel)',
-                       None if und else not probs, '; '.join(sorted(set(probs))[:2]), where)
+                    pa, qa = T.op('abs', simp0(T.subst(p_, zero_c))), T.op('abs', simp0(T.subst(q_, zero_c)))
+                    oks = {(T.op('lt', qa, pa), True), (T.op('le', qa, pa), True), (T.op('lt', pa, qa), False), (T.op('le', pa, qa), False)}
+                    norm_guard = set()
+                    for a_, pol in q.guard:
+                        norm_guard.add((a_, pol))
+                    if not (oks & norm_guard):
+                        recov.append('nothing establishes |%s| >= |%s| where the error of their sum is recovered as (t - p) - q, which is exact only then (Dekker): merging a register into a smaller one loses the rounding error of the merge' % (T.show(simp0(T.subst(p_, zero_c)))[:30], T.show(simp0(T.subst(q_, zero_c)))[:30]))
+            chk.ob('%s:merge:conserved%s' % (PID, sfx), 'E8 error-algebra', 'the merge conserves s %s c: the merged register stands for the sum of what the two operands stand for (on every path, compensations live)' % ('+' if sigma > 0 else '-'),
+                   not cons, '; '.join(sorted(set(cons))[:2]), where)
+            if not cons:
+                chk.ob('%s:merge:first-order%s' % (PID, sfx), 'E8 error-algebra', 'no rounding error of the size of a partial sum survives a merge (else balanced merge trees lose u*sum|x| per level and chains accumulate like naive summation)',
+                       not first, '; '.join(sorted(set(first))[:2]), where)
+                und = [x for x in recov if x.startswith('undecided')]
+                chk.ob('%s:merge:recovery%s' % (PID, sfx), 'E8 error-algebra', 'where the merge recovers the rounding error of adding two sums, the path condition makes the first operand the larger one (precondition of the exact recovery)',
+                       None if und else not recov, '; '.join(sorted(set(recov))[:2]), where)
+                cnt['kernel'] += 2
         except (Unsupported, NotReal) as e:
-            chk.ob('%s:merge%s' % (PID, sfx), 'E3 composition', 'merge', None, 'undecided: %s' % e, where)
+            chk.ob('%s:merge:conserved%s' % (PID, sfx), 'E8 error-algebra', 'merge', None, 'undecided: %s' % e, where)
+
     addx = facts.trait_method('core::ops::Add', kp, 'add')
     if chk.anchor('Add<X> for KahanSum' + sfx, addx):
         cnt['impls'] += 1
@@ -262,6 +306,13 @@ def run_cfg(chk, facts, cfg):
             if nf.term_equal(v, want):
                 k = kk
         chk.ob('%s:value%s' % (PID, sfx), 'E4', 'value() is sum + k*compensation with k in {-1,0,1}', k is not None, 'value() = %s (k = %s)' % (T.show(v), k), facts.loc(sm.value_fn['id']))
+        sg_ = SIGMA.get('kernel')
+        if k is not None and sg_ is not None:
+            # the register stands for s + sigma*c (what the kernel and the merge conserve): value() has to read that quantity,
+            # else a query is off by 2c, a merge with the empty register changes what value() returns (the conserved quantity
+            # is renormalised, its mis-read image is not), and `a + empty == a` fails in the crate's own equality
+            chk.ob('%s:value:conserved%s' % (PID, sfx), 'E4', 'value() reads the quantity the kernel conserves (k = sigma; k = 0 would ignore the residue)', k == sg_,
+                   'value() = sum %s compensation, the kernel conserves sum %s compensation' % ('+' if k > 0 else ('-' if k < 0 else '+ 0 *'), '+' if sg_ > 0 else '-'), facts.loc(sm.value_fn['id']))
     except (Unsupported, NotReal) as e:
         chk.ob('%s:value%s' % (PID, sfx), 'E4', 'value()', None, 'undecided: %s' % e, facts.loc(sm.value_fn['id']))
 
